@@ -4,6 +4,7 @@ import (
 	"bytes"
 	"encoding/binary"
 	"fmt"
+	"hash/fnv"
 	"io"
 	"net"
 	"strings"
@@ -156,6 +157,15 @@ type udpBackend struct {
 	seen    map[string]int
 	stray   []string
 	remotes map[string]bool
+	// late: digests of the datagrams of earlier cases; one of those arriving now (its
+	// client stopped waiting for it) is not something "no client sent"
+	late, older map[uint64]bool
+}
+
+func digest(b []byte) uint64 {
+	h := fnv.New64a()
+	h.Write(b)
+	return h.Sum64()
 }
 
 func newUDPBackend(addr string) (*udpBackend, error) {
@@ -167,6 +177,7 @@ func newUDPBackend(addr string) (*udpBackend, error) {
 	if err != nil {
 		return nil, err
 	}
+	u.SetReadBuffer(4 << 20) // bursts of large datagrams from several handlers at once
 	b := &udpBackend{u: u, port: u.LocalAddr().(*net.UDPAddr).Port}
 	b.reset()
 	go func() {
@@ -181,7 +192,7 @@ func newUDPBackend(addr string) (*udpBackend, error) {
 			replies, ok := b.scripts[d]
 			if ok {
 				b.seen[d]++
-			} else {
+			} else if dg := digest(buf[:n]); !b.late[dg] && !b.older[dg] {
 				b.stray = append(b.stray, fmt.Sprintf("a datagram no client sent: %s", short(buf[:n])))
 			}
 			b.remotes[ra.String()] = true
@@ -196,6 +207,12 @@ func newUDPBackend(addr string) (*udpBackend, error) {
 
 func (b *udpBackend) reset() {
 	b.mu.Lock()
+	if b.late == nil || len(b.late) > 100000 {
+		b.older, b.late = b.late, map[uint64]bool{}
+	}
+	for d := range b.scripts {
+		b.late[digest([]byte(d))] = true
+	}
 	b.scripts = map[string][][]byte{}
 	b.seen = map[string]int{}
 	b.stray = nil
@@ -417,13 +434,23 @@ type rawResult struct {
 
 func checkRaw(t testing.TB, c rawCase) error {
 	err := guard(func() error { return checkRawOnce(t, c) })
-	if _, ok := err.(*timeoutErr); ok {
-		if err2 := guard(func() error { return checkRawOnce(t, c) }); err2 == nil {
+	// "did not arrive": measured again before it is reported; datagrams may be dropped
+	// by the kernel (receive buffer of the server's socket) without anybody's fault,
+	// so the udp kinds get one measurement more
+	again := 1
+	if strings.HasSuffix(c.Kind, "-udp") {
+		again = 2
+	}
+	for i := 0; i < again; i++ {
+		if _, ok := err.(*timeoutErr); !ok {
+			break
+		}
+		err2 := guard(func() error { return checkRawOnce(t, c) })
+		if err2 == nil {
 			vlib.Open(prop).Flaky(c.Kind + ": " + err.Error())
 			return nil
-		} else {
-			return err2
 		}
+		err = err2
 	}
 	return err
 }
@@ -739,9 +766,10 @@ func runCopyTCP(ci int, addr string, tag byte, payload []byte, cuts []int, reply
 	return res
 }
 
-// The copy service keeps one backend socket per relayed datagram for a few seconds
-// (it waits for further replies); pace the datagrams so that the sockets alive at any
-// time stay far below the process's descriptor limit.
+// The copy service keeps one backend socket per relayed datagram for two seconds (it
+// waits for further replies). Local udp ports are a machine-wide resource (about 28000)
+// shared with every other shard and run: pace the datagrams so that one process never
+// holds more than a few hundred of them.
 var (
 	paceMu   sync.Mutex
 	paceSent []time.Time
@@ -754,10 +782,10 @@ func pace(kind string) {
 	for {
 		paceMu.Lock()
 		now := time.Now()
-		for len(paceSent) > 0 && now.Sub(paceSent[0]) > 6*time.Second {
+		for len(paceSent) > 0 && now.Sub(paceSent[0]) > 3*time.Second {
 			paceSent = paceSent[1:]
 		}
-		if len(paceSent) < 3000 {
+		if len(paceSent) < 800 {
 			paceSent = append(paceSent, now)
 			paceMu.Unlock()
 			return
@@ -776,6 +804,7 @@ func runUDP(addr string, c rawCase, ci int, payloads [][]byte, ub *udpBackend) *
 		return res
 	}
 	defer u.Close()
+	u.SetReadBuffer(1 << 20)
 	res.local = u.LocalAddr()
 	buf := make([]byte, 65536)
 	for j, m := range c.Clients[ci].Msgs {
@@ -807,7 +836,6 @@ func runUDP(addr string, c rawCase, ci int, payloads [][]byte, ub *udpBackend) *
 				u.SetReadDeadline(time.Now().Add(waitBound))
 				n, err := u.Read(buf)
 				if err != nil {
-					res.got = append(res.got, got)
 					res.err = fmt.Errorf("reply %d of %d to datagram %d (%d bytes) did not reach the client: %v", k, len(m.Replies), j, len(payloads[j]), err)
 					return res
 				}
@@ -959,6 +987,23 @@ func genRawCase(t *rapid.T, kind string) rawCase {
 		}
 		c.Clients = append(c.Clients, cl)
 	}
+	if n > 1 && strings.HasSuffix(kind, "-udp") {
+		// several clients at once: keep a burst within the receive buffer of the
+		// server's socket (about 200 KiB), the kernel drops what does not fit
+		for ci := range c.Clients {
+			for j := range c.Clients[ci].Msgs {
+				m := &c.Clients[ci].Msgs[j]
+				if m.Data.Len > 30000 {
+					m.Data.Len = 30000
+				}
+				for k := range m.Replies {
+					if m.Replies[k].Len > 30000 {
+						m.Replies[k].Len = 30000
+					}
+				}
+			}
+		}
+	}
 	return c
 }
 
@@ -1012,6 +1057,6 @@ func runRaw(t *testing.T, name, kind string, checks int) {
 }
 
 func TestCopyTCP(t *testing.T) { runRaw(t, "TestCopyTCP", "copy-tcp", vlib.Open(prop).Pick(600, 5000)) }
-func TestCopyUDP(t *testing.T) { runRaw(t, "TestCopyUDP", "copy-udp", vlib.Open(prop).Pick(600, 5000)) }
+func TestCopyUDP(t *testing.T) { runRaw(t, "TestCopyUDP", "copy-udp", vlib.Open(prop).Pick(400, 3000)) }
 func TestDNSUDP(t *testing.T)  { runRaw(t, "TestDNSUDP", "dns-udp", vlib.Open(prop).Pick(600, 5000)) }
 func TestDNSTCP(t *testing.T)  { runRaw(t, "TestDNSTCP", "dns-tcp", vlib.Open(prop).Pick(500, 4000)) }
